@@ -211,7 +211,7 @@ class CHECK(Check):
             if rd_cmp != judged and all(c[1] == 'top' or c[0] != 'm' for c in q['conjuncts']):
                 res.violation(f'row_dict|{sig_tail}', f'model {m["name"]}: row_dict {rd!r}, expected {exp!r}; {ctx}')
             for k in rd:
-                if k not in MODEL_COLS:
+                if k not in MODEL_COLS | {c[3] for c in q['conjuncts'] if c[0] == 'm'}:
                     res.violation(f'table-condition-became-model-argument|{sig_tail}', f'model {m["name"]}: row_dict {rd!r} contains table column {k}; {ctx}')
             # (5) params
             expp = q['using']
@@ -283,7 +283,10 @@ class CHECK(Check):
             consumed.discard('p1')
         for st in top:
             if isinstance(st, S.QueryStep) and st.query is not None and st.query.where is not None:
+                mrefs = {str(m['ref']).lower() for m in q['models']} | {m['name'] for m in q['models']}
                 for idn, path in reflect.walk(st.query.where, want=lambda o: isinstance(o, A.Identifier)):
+                    if len(idn.parts) > 1 and str(idn.parts[-2]).lower() not in mrefs:
+                        continue        # a table column that happens to be called like a model argument
                     if str(idn.parts[-1]) in consumed:
                         res.violation(f'model-argument-still-filters-outer-result|{sig_tail}', f'outer query WHERE {str(st.query.where)!r} still tests {idn}; {ctx}')
                         break
